@@ -494,6 +494,9 @@ func runC10(rc *runCtx) int {
 		*p, *q = 7, 7
 		toggle := func() { *p ^= 1; *q ^= 1 }
 		checkKeyType(st, "string", []string{"", "a", "b", "ab", "a\x00"}, []string{`""`, `"a"`, `"b"`, `"ab"`, `"a\x00"`}, nil)
+		long := strings.Repeat("0123456789", 4)
+		checkKeyType(st, "long string", []string{long + "1", long + "2", "1" + long, strings.Repeat("z", 1000), strings.Repeat("z", 1001)},
+			[]string{"40 bytes+1", "40 bytes+2", "1+40 bytes", "1000 bytes", "1001 bytes"}, nil)
 		checkKeyType(st, "int", []int{0, 1, -1, math.MinInt64}, []string{"0", "1", "-1", "min"}, nil)
 		checkKeyType(st, "int8", []int8{0, 1, -1, math.MinInt8}, []string{"0", "1", "-1", "min"}, nil)
 		checkKeyType(st, "uint64", []uint64{0, 1, math.MaxUint64, 1 << 63}, []string{"0", "1", "max", "1<<63"}, nil)
